@@ -527,3 +527,126 @@ refactor("c01-r-inline-first", "C01", SCH,
 refactor("c01-r-ge", "C01", SCH,
          "        return previous_operation.end_time <= scheduled_operation.start_time",
          "        return scheduled_operation.start_time >= previous_operation.end_time")
+
+# ------------------------------------------------------------------ C12
+EST = "job_shop_lib/dispatching/feature_observers/_earliest_start_time_observer.py"
+ISC = "job_shop_lib/dispatching/feature_observers/_is_completed_observer.py"
+ISR = "job_shop_lib/dispatching/feature_observers/_is_ready_observer.py"
+DUR = "job_shop_lib/dispatching/feature_observers/_duration_observer.py"
+mutant("c12-est-no-reset", "C12", "R12.a", EST,
+       """        self.earliest_start_times = self._initial_earliest_start_times(
+            self.dispatcher
+        )
+        super().reset()""", "        super().reset()", "the original defect D5")
+mutant("c12-makespan-not-reset", "C12", "R12.a", REW,
+       "        super().reset()\n        self.current_makespan = self.dispatcher.schedule.makespan()", "        super().reset()")
+mutant("c12-rewards-not-reset", "C12", "R12.a", REW,
+       "    def reset(self) -> None:\n        \"\"\"Sets rewards attribute to a new empty list.\"\"\"\n        self.rewards = []",
+       "    def reset(self) -> None:\n        \"\"\"Sets rewards attribute to a new empty list.\"\"\"")
+mutant("c12-features-not-zeroed", "C12", "R12.a", FOBS,
+       "        self.set_features_to_zero()\n        self.initialize_features()", "        self.initialize_features()",
+       "IsScheduledObserver keeps its flags after reset")
+mutant("c12-unsched-reset-noop", "C12", "R12.a", UOBS,
+       """        self.unscheduled_operations_per_job = [
+            collections.deque(job) for job in self.dispatcher.instance.jobs
+        ]""", "        pass")
+mutant("c12-remops-late-acquire", "C12", "R12.b", REM,
+       """        self._unscheduled_ops_observer = dispatcher.create_or_get_observer(
+            UnscheduledOperationsObserver
+        )
+        super().__init__(
+            dispatcher, subscribe=subscribe, feature_types=feature_types
+        )""",
+       """        super().__init__(
+            dispatcher, subscribe=subscribe, feature_types=feature_types
+        )
+        self._unscheduled_ops_observer = dispatcher.create_or_get_observer(
+            UnscheduledOperationsObserver
+        )""")
+refactor("c12-r-remops-reacquire", "C12", REM,
+         "        unscheduled_ops_observer = self._unscheduled_ops_observer\n",
+         "        unscheduled_ops_observer = self.dispatcher.create_or_get_observer(\n            UnscheduledOperationsObserver\n        )\n",
+         "re-acquiring at use is harmless once the dependency was acquired before subscribing")
+_v("c12-d6-original", "C12", "mutant", "R12.b", [
+    (REM, "        unscheduled_ops_observer = self._unscheduled_ops_observer\n",
+     "        unscheduled_ops_observer = self.dispatcher.create_or_get_observer(\n            UnscheduledOperationsObserver\n        )\n"),
+    (REM, """        self._unscheduled_ops_observer = dispatcher.create_or_get_observer(
+            UnscheduledOperationsObserver
+        )
+        super().__init__(""", "        super().__init__("),
+], "the original defect D6: dependency acquired only at use, after subscribing")
+mutant("c12-graph-no-deepcopy", "C12", "R12.d", GUP,
+       "        self.job_shop_graph = deepcopy(self.initial_job_shop_graph)", "        self.job_shop_graph = self.initial_job_shop_graph",
+       "third episode starts from a damaged graph")
+mutant("c12-graph-alias-initial", "C12", "R12.d", GUP,
+       "        self.initial_job_shop_graph = deepcopy(job_shop_graph)", "        self.initial_job_shop_graph = job_shop_graph")
+mutant("c12-disp-wrong-length", "C12", "R12.c", DISP,
+       """        self._job_next_available_time = [0] * self.instance.num_jobs
+        self._cache = {}
+        for subscriber""",
+       """        self._job_next_available_time = [0] * self.instance.num_machines
+        self._cache = {}
+        for subscriber""", "needs num_jobs != num_machines")
+mutant("c12-disp-forgets-vector", "C12", "R12.c", DISP,
+       """        self._job_next_operation_index = [0] * self.instance.num_jobs
+        self._job_next_available_time = [0] * self.instance.num_jobs
+        self._cache = {}
+        for subscriber""",
+       """        self._job_next_operation_index = [0] * self.instance.num_jobs
+        self._cache = {}
+        for subscriber""")
+mutant("c12-env-no-dispatcher-reset", "C12", "R12.e", ENV1,
+       "        self.dispatcher.reset()\n        obs = self.get_observation()", "        self.dispatcher.schedule.reset()\n        obs = self.get_observation()")
+mutant("c12-env-obs-first", "C12", "R12.e", ENV1,
+       "        self.dispatcher.reset()\n        obs = self.get_observation()", "        obs = self.get_observation()\n        self.dispatcher.reset()")
+mutant("c12-multi-drops-updater", "C12", "R12.e", ENVM,
+       "            graph_updater_config=self.graph_updater_config,\n            ready_operations_filter=self.ready_operations_filter,", "            ready_operations_filter=self.ready_operations_filter,",
+       "the original defect D7")
+refactor("c12-r-clear-rewards", "C12", REW, "        self.rewards = []\n\n\nclass MakespanReward", "        self.rewards.clear()\n\n\nclass MakespanReward")
+refactor("c12-r-isready-zero-in-reset", "C12", ISR,
+         "    def reset(self):\n        self.initialize_features()",
+         "    def reset(self):\n        self.set_features_to_zero()\n        self.initialize_features()")
+
+# ------------------------------------------------------------------ C18
+mutant("c18-action-space", "C18", "R18.b", ENV1,
+       "            [self.instance.num_jobs, self.instance.num_machines + 1],", "            [self.instance.num_jobs, self.instance.num_machines],", "the original defect D8")
+mutant("c18-action-start", "C18", "R18.b", ENV1,
+       "            start=[0, -1],", "            start=[0, 0],", "the -1 sentinel is no longer a legal action")
+mutant("c18-edge-range", "C18", "R18.b", ENV1,
+       "                    fill_value=len(self.job_shop_graph.nodes) + 1,", "                    fill_value=len(self.job_shop_graph.nodes),")
+mutant("c18-drop-reward-config", "C18", "R18.a", ENVM,
+       "            reward_function_config=self.reward_function_config,\n            graph_updater_config=self.graph_updater_config,", "            graph_updater_config=self.graph_updater_config,")
+mutant("c18-swap-config", "C18", "R18.a", ENVM,
+       "        self.reward_function_config = reward_function_config\n        self.graph_updater_config = graph_updater_config",
+       "        self.reward_function_config = graph_updater_config\n        self.graph_updater_config = reward_function_config")
+mutant("c18-truncated", "C18", "R18.c", ENV1,
+       "        truncated = False", "        truncated = not self.dispatcher.available_operations()")
+mutant("c18-done-early", "C18", "R18.c", ENV1,
+       """        self.dispatcher.dispatch(operation, machine_id)
+
+        obs = self.get_observation()
+        reward = self.reward_function.last_reward
+        done = self.dispatcher.schedule.is_complete()""",
+       """        done = self.dispatcher.schedule.is_complete()
+        self.dispatcher.dispatch(operation, machine_id)
+
+        obs = self.get_observation()
+        reward = self.reward_function.last_reward""")
+mutant("c18-mask-pad-false", "C18", "R18.e", ENVM,
+       "        padding_value[ObservationSpaceKey.REMOVED_NODES.value] = True", "        padding_value[ObservationSpaceKey.REMOVED_NODES.value] = False")
+mutant("c18-pad-front", "C18", "R18.e", "job_shop_lib/reinforcement_learning/_utils.py",
+       "    slices = tuple(slice(0, dim) for dim in array.shape)",
+       "    slices = tuple(slice(out - dim, out) for dim, out in zip(array.shape, output_shape))")
+refactor("c18-r-kwarg-order", "C18", ENVM,
+         "            reward_function_config=self.reward_function_config,\n            graph_updater_config=self.graph_updater_config,",
+         "            graph_updater_config=self.graph_updater_config,\n            reward_function_config=self.reward_function_config,")
+refactor("c18-r-nvec-names", "C18", ENV1,
+         """        self.action_space = gym.spaces.MultiDiscrete(
+            [self.instance.num_jobs, self.instance.num_machines + 1],
+            start=[0, -1],
+        )""",
+         """        num_machine_choices = 1 + self.instance.num_machines
+        self.action_space = gym.spaces.MultiDiscrete(
+            [self.instance.num_jobs, num_machine_choices],
+            start=[0, -1],
+        )""")
